@@ -265,7 +265,7 @@ class CoordinateComponent(Component):
             # If the view is a tuple or list of arrays, we should actually just
             # convert these straight to world coordinates since the indices
             # of the pixel coordinates are the pixel coordinates themselves.
-            if isinstance(view, (tuple, list)) and isinstance(view[0], np.ndarray):
+            if isinstance(view, (tuple, list)) and isinstance(view[0], np.ndarray) and view[0].dtype.kind != 'b':
                 axis = self._data.ndim - 1 - self.axis
                 return pixel2world_single_axis(self._data.coords, *view[::-1],
                                                world_axis=axis)
@@ -279,7 +279,8 @@ class CoordinateComponent(Component):
             # Some views, e.g. with lists of integer arrays, can give arbitrarily
             # complex (copied) subsets of arrays, so in this case we don't do any
             # optimization
-            if view is Ellipsis:
+            if view is Ellipsis or isinstance(view, np.ndarray):
+                # (a single array, e.g. a boolean mask, is applied as is at the end)
                 optimize_view = False
             else:
                 for v in view:
